@@ -1300,6 +1300,11 @@ static void testContexts() {
   Manifold pcl = pec2.LevelSet(f, bx.cpp(), el, 0.01, -1.0, true);
   t.eqi("status after cancel", C(manifold_status)(cl), expectCode(pcl.Status()));
   t.ok(pcl.Status() == Manifold::Error::Cancelled, "cancel did not take effect (vacuous)");
+  // ... through the sequential twin as well (the context must really be forwarded, not defaulted)
+  NEW(ManifoldManifold, cls, manifold_execution_context_level_set_seq, ec2, sdfBall, bx, el, 0.01, -1.0, (void*)&k);
+  Manifold pcls = pec2.LevelSet(f, bx.cpp(), el, 0.01, -1.0, false);
+  t.eqi("status after cancel (seq)", C(manifold_status)(cls), expectCode(pcls.Status()));
+  t.eqi("num_tri after cancel (seq)", (long)C(manifold_num_tri)(cls), (long)pcls.NumTri());
   g_expectCtx = nullptr;
 }
 
